@@ -113,6 +113,9 @@ type histOpts struct {
 	// txDDL: a transaction may contain DDL-classified statements (CREATE / DROP TEMPORARY TABLE are logged inside the
 	// transaction that ran them and do not commit it); they are part of the transaction and delivered at its commit.
 	txDDL bool
+	// hugeTx: the first transaction unit of the history has this many statements (a bulk load: tens of thousands of
+	// events between one BEGIN and its commit), instead of 1..3
+	hugeTx int
 }
 
 var allUnitKinds = []string{"txXid", "txCommit", "txRollback", "ddl", "autoRows", "stmtDml", "rotation", "restart", "ignorable", "unknownStmt", "setStmt", "emptyTx"}
@@ -145,6 +148,17 @@ func genHistory(r *vh.Rng, cfg Cfg, o histOpts) *history {
 		t.db, t.name = fmt.Sprintf("db%d", i%2), fmt.Sprintf("tab%d", i)
 		t.id = uint64(100 + i)
 		h.tables = append(h.tables, t)
+	}
+	// A table id is an opaque 4- or 6-byte number the master hands out; no value of it is special.  One history in four
+	// uses ids at the edges of the 24-, 32- and 16-bit ranges (0xffffff is the id MySQL itself puts into the dummy rows
+	// event that only carries STMT_END_F, and a replica that gives that value a meaning must not lose a real table).
+	if tq := r.Side(); tq.Chance(1, 4) {
+		base := uint64(tq.Pick(0xffffff, 0xffffff, 0x1000000, 0xffff, 0xfffffffe, 1))
+		for i := range h.tables {
+			if base >= uint64(i) {
+				h.tables[i].id = base - uint64(i)
+			}
+		}
 	}
 	fileNo := 1
 	file := fmt.Sprintf("bin.%06d", fileNo)
@@ -305,6 +319,10 @@ func genHistory(r *vh.Rng, cfg Cfg, o histOpts) *history {
 			ns := 1 + r.Intn(3)
 			if k == "emptyTx" {
 				ns = 0
+			}
+			if o.hugeTx > 0 && k != "emptyTx" {
+				ns = o.hugeTx
+				o.hugeTx = 0
 			}
 			inTx = true
 			for s := 0; s < ns; s++ {
